@@ -31,8 +31,11 @@ LEVEL_NOTE = ("Proof level covers peel, getConnComps (model theorems are partial
               "C19-planarise-shortseg in the model, replayed against the library every run) and ttouch_asymmetric. The library is tied to "
               "the model by exact equality of bend nodes, overlap-free graph and planar graph (new nodes renamed in creation order) on the "
               "planx-* classes; cases whose library result depends on std::sort tie handling, heap addresses or double rounding of the "
-              "running average are detected and only counted. NOT proved: that no two edges of the result properly cross, and the "
-              "overlap-removal stage (both validated per run on separated inputs).")
+              "running average are detected and only counted. Also proved for all such segment lists: every edge of the result is a "
+              "sub-segment of one input segment and no horizontal and vertical edge of the result cross transversally "
+              "(planarise_no_crossing_partial: no crossing node ever lies strictly inside a piece). NOT proved: the overlap-removal stage "
+              "(removeEdgeOverlaps: bend nodes, node groups) and hence the composition over whole routes; both are tied exactly and "
+              "validated per run on separated inputs.")
 TECHNIQUE = "Lean 4 theorems (own list-based graph theory) + correspondence harness + verified output checkers"
 RULE = ("generated simple graphs (random connected, trees incl. one/two-centre paths, cycles, unicyclic, cores with "
         "hanging trees/paths, disconnected unions; rooted trees of 5-60 nodes fed directly to Tree::symmetricLayout "
